@@ -6,7 +6,7 @@ META = dict(
     level_text=("TLC checks a three-layer model (abstract no-overwrite map, the file system touched by FSKeystore incl. decoy "
                 "files outside the directory, the MemKeystore map) exhaustively, with a control configuration (raw names used "
                 "as file names) that must violate confinement. Every mutator history of depth 3 (quick) / 4 with two keys and 5 with one key (thorough) over two "
-                "ordinary names, an over-long and the empty name, and simulated 40-step histories over 12 names, are replayed on "
+                "ordinary names, an over-long and the empty name, with two proper keys and a key whose serialisation fails (every refused call must leave both keystores, the directory and its surroundings unchanged), and simulated 40-step histories over 12 names, are replayed on "
                 "the real FSKeystore and MemKeystore in lock-step for six real-name tables (case variants, ../x, a/b, NUL, "
                 "non-ASCII, '.', '..', 156-byte name) with a full query battery and a listing of the keystore directory and a "
                 "metadata snapshot (size, mode, mtime, atime) of its surroundings after every step; random 250-500 step histories of both are validated as "
@@ -22,9 +22,10 @@ DEV = "Dev_C40_MemDeleteMissingOk"
 
 def run(ctx):
     ctx.assumptions += ["file system with NAME_MAX = 255 and case-sensitive names (Linux tmp dir)",
-                        "keys are Ed25519 keys that marshal/unmarshal faithfully (go-libp2p crypto)",
+                        "keys are Ed25519 keys that marshal/unmarshal faithfully (go-libp2p crypto); the bad key is an Ed25519 key whose Raw() returns an error; "
+                        "the MemKeystore (stores Go values, never serialises) is not driven with the bad key",
                         "empty name: only Put is in scope; names whose encoded form exceeds NAME_MAX are driven on the FS keystore only"]
-    ctx.cov["rule"] = ("G: every Put/Delete/Reopen history of depth D (3 quick; 4, and 5 with a single key, thorough) over {n1,n2,nL(over-long),nE(empty)} x 2 keys (exhaustive BFS), "
+    ctx.cov["rule"] = ("G: every Put/Delete/Reopen history of depth D (3 quick; 4, and 5 with a single key, thorough) over {n1,n2,nL(over-long),nE(empty)} x 2 keys (depth 3: + 1 bad key whose marshaling fails) (exhaustive BFS), "
                        "each replayed with 2 (quick, rotating) / all 6 (thorough) real-name tables, plus simulated 40-step histories over 12 real names; after every step "
                        "Has/Get on every name, List, directory listing and parent snapshot are compared with the model map. "
                        "T: random histories validated by TraceKeystore. non-trivial = the model map changed at least twice")
@@ -37,6 +38,8 @@ def run(ctx):
     behs = ctx.tlc_gen("Keystore", "GenKeystore.tla", "GenKeystore.cfg" if ctx.quick else "GenKeystoreD4.cfg",
                        timeout=3000, workers=4)
     deep = [] if ctx.quick else ctx.tlc_gen("Keystore", "GenKeystore.tla", "GenKeystoreD5K1.cfg", timeout=3000, workers=4)
+    # the key whose serialisation fails is in the depth-3 alphabet (quick: the only exhaustive set; thorough: run as well)
+    d3bad = [] if ctx.quick else ctx.tlc_gen("Keystore", "GenKeystore.tla", "GenKeystore.cfg", timeout=3000, workers=4)
     sims = ctx.tlc_gen("Keystore", "GenKeystore.tla", "GenKeystoreSim.cfg",
                        simulate=10 if ctx.quick else 100, depth=41 * 3 + 1, timeout=1500)
     binp = ctx.go_build("keystore", ["keystore/zz_verif_C40_test.go"])
@@ -51,7 +54,8 @@ def run(ctx):
     # relatime); the simulated and the recorded histories use the default temp dir
     fast = {"TMPDIR": "/dev/shm"} if os.path.isdir("/dev/shm") and os.access("/dev/shm", os.W_OK) else {}
     for name, bl, env in (("bfs", behs, dict(fast, C40_NORMAL=2, C40_TABLES=2 if ctx.quick else 6)),
-                          ("bfs5", deep, dict(fast, C40_NORMAL=2, C40_TABLES=3)), ("sim", sims, {"C40_WIDE": 1})):
+                          ("bfs5", deep, dict(fast, C40_NORMAL=2, C40_TABLES=3)),
+                          ("bfs3bad", d3bad, dict(fast, C40_NORMAL=2, C40_TABLES=6)), ("sim", sims, {"C40_WIDE": 1})):
         if bl and ctx.replay_behaviours(binp, "TestVerifC40", "keystore", bl, env=env, name=name,
                                  nontrivial=changed_twice, timeout=3000) is None:
             return
